@@ -29,6 +29,7 @@ PROPERTY_KINDS = ("crash", "outcome", "order", "life", "removed")
 
 class Runner:
     def __init__(self, ctx):
+        self.ctx = ctx
         self.exe = ctx.harness("systems_driver")
         self.drv = ctx.driver()
         self.harness_runs = 0
@@ -43,32 +44,33 @@ class Runner:
             for i in range(start, len(cases)):
                 text.append("case %d" % i)
                 text.extend(cases[i])
-            rc, out, err = vlib.run([self.exe], inp="\n".join(text) + "\n", timeout=600)
+            try:
+                rc, out, err = vlib.run([self.exe], inp="\n".join(text) + "\n", timeout=600)
+            except FileNotFoundError:
+                # the shared build cache was pruned by a concurrent check of another tree: rebuild
+                self.exe = self.ctx.harness("systems_driver")
+                rc, out, err = vlib.run([self.exe], inp="\n".join(text) + "\n", timeout=600)
             self.harness_runs += 1
             per = {}
+            begun = -1
             for line in out.splitlines():
                 w = line.split()
-                if len(w) == 4 and w[0].isdigit() and w[1].isdigit():
+                if len(w) == 2 and w[0].isdigit() and w[1] == "begin":
+                    begun = max(begun, int(w[0]))
+                    per.setdefault(int(w[0]), [])
+                elif len(w) == 4 and w[0].isdigit() and w[1].isdigit():
                     per.setdefault(int(w[0]), []).append((int(w[1]), w[2], w[3]))
-            last = start - 1
             for i in range(start, len(cases)):
-                got = per.get(i)
-                if got is None:
-                    break
-                res[i] = ([(o, e) for (_, o, e) in got], None)
-                last = i
-            if rc == 0 and last == len(cases) - 1:
+                if i in per:
+                    res[i] = ([(o, e) for (_, o, e) in per[i]], None)
+            done = (rc == 0 and begun == len(cases) - 1 and len(res[begun][0]) == len(cases[begun]))
+            if done:
                 break
-            # the process died inside case `bad`
+            # the process died in the last case that had begun (during one of its ops or while its World
+            # was destroyed), or before the first case of this batch existed
             self.crashes += 1
-            if last >= start and len(res[last][0]) < len(cases[last]):
-                bad = last
-            elif last + 1 < len(cases):
-                bad = last + 1
-                res[bad] = ([], None)
-            else:
-                bad = last
-            obs = res[bad][0]
+            bad = begun if begun >= start else start
+            obs = res[bad][0] if res[bad] else []
             if obs and obs[-1][0] == "aborted":
                 why = None              # the harness reported std::terminate itself; the model judges it
             else:
@@ -98,11 +100,16 @@ class Runner:
         results = []
         for i, (ops, (obs, crash)) in enumerate(zip(cases, impl)):
             lines = per.get(i, [])
-            r = {"kind": None, "detail": "", "lines": lines, "obs": obs, "op": None}
+            r = {"kind": None, "detail": "", "lines": lines, "obs": obs, "op": None, "malformed": False}
             expect = len(obs) + (1 if crash is not None and len(obs) < len(ops) else 0)
             if rc not in (0, 1) or len(lines) != expect or any("PARSE-ERROR" in l for l in lines):
                 r["kind"] = "machinery"
                 r["detail"] = "Lean driver failed (rc=%s): %s %s" % (rc, err[-300:], [l for l in lines if "PARSE" in l][:1])
+                results.append(r)
+                continue
+            if any(" MALFORMED " in l for l in lines):
+                # outside the contract (a second system under a registered name): nothing is claimed
+                r["malformed"] = True
                 results.append(r)
                 continue
             for j, l in enumerate(lines):
@@ -452,6 +459,8 @@ def run(ctx):
             stats["order_judged"] += judged
             if judged and cons and nadd >= 2:
                 stats["nontrivial"].add(hash("\n".join(ops)))
+            if r["malformed"]:
+                stats["malformed"] = stats.get("malformed", 0) + 1
             if r["kind"]:
                 stats["kinds"][r["kind"]] = stats["kinds"].get(r["kind"], 0) + 1
                 lst = failures.setdefault(r["kind"], [])
@@ -485,6 +494,9 @@ def run(ctx):
         account(cases, rs)
         for ops, r in zip(cases, rs):
             log_case(ops, r)
+            if r["malformed"]:
+                vlib.log("[C14] replay is outside the contract (adds a system under a name that is already "
+                         "registered): nothing to decide")
             if r["kind"]:
                 ctx.violation("\n".join(ops), "replay fails (%s): %s" % (r["kind"], r["detail"]),
                               no_input=(r["kind"] in ("events", "machinery")))
@@ -651,6 +663,11 @@ def finish(ctx, runner, stats, samples, scopes=None, replay=False):
         "system names are unique among present systems (the manager indexes by name)",
         "removeSystem is only called when the remaining constraints are consistent (it is noexcept; "
         "a still-contradictory remainder terminates the process — modelled as outcome `aborted`, not generated)",
+        "validUpdateB (the search used on the implementation's update sequence) is proved sound (it accepts only "
+        "ValidUpdate sequences, theorem validUpdate_sound); that it accepts every ValidUpdate sequence is validated by "
+        "the runs on the repaired tree, not proved",
+        "World::init() reaches the SystemManager only if World::systems() was called before; the harness calls "
+        "World::systems().init() as tests/system.cpp does",
         "external lifecycle calls are pause/resume/stop; create/configure/start/destroy are driven by the manager "
         "(create optionally by the user before addSystem)",
     )
@@ -665,6 +682,7 @@ def finish(ctx, runner, stats, samples, scopes=None, replay=False):
         op_features=stats["features"],
         systems_per_case=stats["sizes"],
         failure_kinds=stats["kinds"],
+        malformed_cases_discarded=stats.get("malformed", 0),
         corpus_cases=stats.get("corpus_cases", 0),
         exhaustive_cases=stats.get("exhaustive_cases", 0),
         random_cases=stats.get("random_cases", 0),
